@@ -551,8 +551,8 @@ end
 
 /-! ## The 64-bit gate and the C++ type choice -/
 
-def two63 : Int := 9223372036854775808
-def two64 : Int := 18446744073709551616
+abbrev two63 : Int := 9223372036854775808
+abbrev two64 : Int := 18446744073709551616
 
 def fitsU64 (lo hi : Int) : Bool := lo ≥ 0 && hi ≤ two64 - 1
 def fitsI64 (lo hi : Int) : Bool := lo ≥ -two63 && hi ≤ two63 - 1
@@ -667,6 +667,12 @@ def annot : Expr → Option ATree
     match abs (.lower e), annot e with
     | some ty, some a => some (.node true ty [a])
     | _, _ => none
+  | .cref e =>
+    -- a constant_reference to a non-constant virtual field is rejected by type_check.py:
+    -- no annotated IR exists
+    match abs e with
+    | some ty => if isConstType ty then some (.node false ty []) else none
+    | none => none
   | e => match abs e with
     | some ty => some (.node false ty [])
     | none => none
